@@ -319,6 +319,9 @@ func (e *stakeEp) block(absent map[int]bool, mid []stakeOp, txs []stakeOp, dt ti
 		if pp != nil {
 			if err := w.app.CustomGovKeeper.SetNetworkProperties(ctx, pp); err != nil {
 				pp = nil
+				r.Count("params:refused")
+			} else if got := w.app.CustomGovKeeper.GetNetworkProperties(ctx).InactiveRankDecreasePercent; got.IsNegative() || got.GT(sdk.OneDec()) {
+				r.Fail("C15/params/rank-decrease-share-outside-0-1", fmt.Sprintf("%s: block %d: the network properties now carry inactive_rank_decrease_percent = %s: an inactivated validator loses more than its whole rank (hypothesis of C15.rank_streak_nonneg)", e.label, w.height, got), nil)
 			}
 		}
 		for _, m := range mid {
@@ -989,6 +992,11 @@ func runStake(r *Rec, prop string) {
 				np.MischanceRankDecreaseAmount = uint64(1 + r.Rng.Intn(3))
 				np.DowntimeInactiveDuration = uint64(20 + r.Rng.Intn(60))
 				np.UnjailMaxTime = uint64(15 + r.Rng.Intn(40))
+				if r.Rng.Intn(2) == 0 {
+					// the share of its rank an inactivated validator loses: within [0, 1] (hypothesis `hp` of C15.rank_streak_nonneg);
+					// governance may try anything - what is outside must be refused, the parameters then stay as they were
+					np.InactiveRankDecreasePercent = sdk.MustNewDecFromStr([]string{"0", "0.25", "0.5", "1", "1.5", "2", "1.000000000000000001", "-0.1"}[r.Rng.Intn(8)])
+				}
 				e.pendingParams = np
 			}
 			dt := time.Duration(3+r.Rng.Intn(10)) * time.Second
